@@ -313,6 +313,9 @@ func (r *Report) writeEvidence(dir, prop string, mine []*OblSummary, nobl, disch
 		if c.Kind == "assume" {
 			assumptions = append(assumptions, "assumed contract (unchecked) on external function "+c.Target)
 		}
+		if c.Kind == "axiom" {
+			assumptions = append(assumptions, "axiom (trusted) "+c.Target+": "+c.Requires[0].Text)
+		}
 	}
 	for _, k := range sortedKeys(r.Prog.Contracts) {
 		c := r.Prog.Contracts[k]
